@@ -64,7 +64,7 @@ def run(tier, seed):
         if bad_cfgs:
             add("line", rng.choice(["cmd", "runner"]), r["line"], cfgs[rng.choice(bad_cfgs)])
     reps = 2 if tier == "quick" else 8
-    for cause in ["mismatch", "silent", "tinytimeout", "partial", "exitearly", "closeout"]:
+    for cause in ["mismatch", "silent", "tinytimeout", "partial", "exitearly", "closeout", "closeboth"]:
         for launch in ["cmd", "runner"]:
             for _ in range(reps):
                 add(cause, launch)
